@@ -96,6 +96,9 @@ def run_one(sid, tier, props=None):
     try:
         r = sh(["git", "-C", REPO, "apply", os.path.join(d, "patch.diff")])
         if r.returncode:
+            r = sh(["git", "-C", REPO, "apply", "--3way", os.path.join(d, "patch.diff")])      # written against an earlier HEAD
+            sh(["git", "-C", REPO, "reset", "-q"])                                               # --3way stages the result: keep the index clean
+        if r.returncode:
             return {p: {"rc": None, "out": "patch does not apply: " + r.stderr[-200:]} for p in props}
         for p in props:
             t0 = time.time()
@@ -121,6 +124,9 @@ def try_one(sid, tier, props=None):
     res = {}
     try:
         r = sh(["git", "-C", wt, "apply", os.path.join(d, "patch.diff")])
+        if r.returncode:
+            # the patch was written against an earlier HEAD (before a later fix: commit touched the same lines): three-way merge it
+            r = sh(["git", "-C", wt, "apply", "--3way", os.path.join(d, "patch.diff")])
         if r.returncode:
             return {p: {"rc": None, "first": ["patch does not apply: " + r.stderr[-200:]]} for p in props}
         for p in props:
